@@ -6,7 +6,7 @@
 From Coq Require Import List ZArith Bool Arith Lia.
 From SC Require Import Base.Res Base.PyList Inst.Heap Inst.ClassTable Inst.Model Inst.Canon
   Inst.Abs Inst.SpecHelpers Inst.ElemProofs Inst.Framed Inst.RefineProofs Inst.CopyProofs Inst.ElemRefine
-  Inst.ElemRefine2 Inst.ElemRefine3 Inst.ElemRefine4 Inst.ElemRefine5 Inst.ElemRefine6 Inst.ElemRefine7 Inst.ElemRefine8 Inst.ElemRefine9.
+  Inst.ElemRefine2 Inst.ElemRefine3 Inst.ElemRefine4 Inst.ElemRefine5 Inst.ElemRefine6 Inst.ElemRefine7 Inst.ElemRefine8 Inst.ElemRefine9 Inst.ElemRefine10.
 Import ListNotations.
 Open Scope nat_scope.
 
@@ -818,6 +818,131 @@ Section GuardedChange.
 End GuardedChange.
 
 (* ------------------------------------------------------------------ *)
+(** * with_<item> through an item preparer, under the guards *)
+
+(* element type without spec class; item preparer absent or a pool function on scalars *)
+Definition prep_items (ct : ctable) (s : state) (l : loc) (a : aid) : bool :=
+  match attr_spec_of ct s l a with
+  | Some sp => match spec_of_ty_strict (item_type (a_ty sp)) with
+               | None => match a_prepare_item sp with Some f => pool_fn f | None => true end
+               | Some _ => false end
+  | None => false
+  end.
+
+(* the prepared element has an unambiguous place in the canonical order of the set *)
+Definition set_prep_ok (ct : ctable) (s : state) (l : loc) (a : aid) (v : val) : bool :=
+  match attr_spec_of ct s l a with
+  | Some sp => match prep_val sp v with Ok v' => set_key_free ct (list_of s l a) v' | Err _ => true end
+  | None => false
+  end.
+
+Section GuardedPrep.
+  Variable ct : ctable.
+  Variable h0 : list obj.
+  Variable s : state.
+  Variables (l : loc) (a : aid).
+
+  Lemma prep_items_facts sp : attr_spec_of ct s l a = Some sp -> prep_items ct s l a = true ->
+    prep_ok sp /\ spec_of_ty_strict (item_type (a_ty sp)) = None.
+  Proof.
+    unfold prep_items, prep_ok. intros -> H.
+    destruct (spec_of_ty_strict (item_type (a_ty sp))); [discriminate|]. split; auto.
+    destruct (a_prepare_item sp); auto.
+  Qed.
+
+  Lemma set_prep_ok_facts sp xs v : attr_spec_of ct s l a = Some sp -> list_of s l a = xs ->
+    set_prep_ok ct s l a v = true -> forall v', prep_val sp v = Ok v' -> set_key_free ct xs v' = true.
+  Proof. unfold set_prep_ok. intros -> -> H v' E. now rewrite E in H. Qed.
+
+  Ltac ipfacts kd H :=
+    destruct (elem_guard_sound ct s l a kd H) as [c [d [k [sp [lc [o [G [Hk [Hsp Hob]]]]]]]]];
+    destruct G as [Gl Gc Ga Gd Gfz Gni Gdep Gfld Glc Go Gflat Gsh].
+  Ltac cpfacts kd H :=
+    destruct (copy_guard_sound ct s l a kd H) as [c [d [k [sp [lc [o [G [Hk [Hsp Hob]]]]]]]]];
+    destruct G as [Gl Gc Ga Gd Gdnc Gpc Gni Gdep Gfld Glc Go Gflat Ginit Ga0].
+
+  Theorem with_item_list_prep_guarded idx v ins :
+    elem_guard ct s l a KList = true -> prep_items ct s l a = true -> fail_at s = None ->
+    vscalar v = true -> (idx = VMissing \/ exists i, idx = VInt i) ->
+    refines_spec ct h0 s l (HWithItem a) (mkh [v] true true idx ins None None [] None)
+                 (SWithItem a) (mkah [abs0 v] true true (abs0 idx) ins None None [] None).
+  Proof.
+    intros H Hp Hfa Hv Hi. ipfacts KList H. destruct (prep_items_facts sp Hsp Hp) as [P1 P2].
+    destruct (a_ty sp) as [| | | | | | |ity| |ity'|] eqn:Hty; try discriminate Hk.
+    destruct o as [xs| | |]; try discriminate Hk. cbn [item_type] in P2.
+    exact (with_item_list_prep_inplace_refines ct h0 l a c d k sp s lc Gl Gc Ga Gd Gni Gfld Gflat P1 Hfa xs ity Hty P2
+             ltac:(cbn [ty_depth] in Gdep; lia) Glc Go idx v ins Gfz Gsh Hv Hi).
+  Qed.
+
+  Theorem with_item_list_prep_copy_guarded idx v ins :
+    copy_guard ct s l a KList = true -> prep_items ct s l a = true -> fail_at s = None ->
+    vscalar v = true -> (idx = VMissing \/ exists i, idx = VInt i) ->
+    copy_refines_spec ct h0 s l (HWithItem a) (mkh [v] false true idx ins None None [] None)
+                      (SWithItem a) (mkah [abs0 v] false true (abs0 idx) ins None None [] None).
+  Proof.
+    intros H Hp Hfa Hv Hi. cpfacts KList H. destruct (prep_items_facts sp Hsp Hp) as [P1 P2].
+    destruct (a_ty sp) as [| | | | | | |ity| |ity'|] eqn:Hty; try discriminate Hk.
+    destruct o as [xs| | |]; try discriminate Hk. cbn [item_type] in P2.
+    exact (with_item_list_prep_copy_refines ct h0 l a c d k sp s lc Gl Gc Ga Gd Gni Gfld Gflat P1 Hfa xs ity Hty P2
+             ltac:(cbn [ty_depth] in Gdep; lia) Glc Go idx v ins Gdnc Gpc Ginit Ga0 Hv Hi).
+  Qed.
+
+  Theorem with_item_dict_prep_guarded key v :
+    elem_guard ct s l a KDict = true -> prep_items ct s l a = true -> fail_at s = None ->
+    nonref key = true -> vscalar v = true ->
+    refines_spec ct h0 s l (HWithItem a) (mkh [key; v] true true VMissing false None None [] None)
+                 (SWithItem a) (mkah [abs0 key; abs0 v] true true AMissing false None None [] None).
+  Proof.
+    intros H Hp Hfa Hkey Hv. ipfacts KDict H. destruct (prep_items_facts sp Hsp Hp) as [P1 P2].
+    destruct (a_ty sp) as [| | | | | | | |tk tv| |] eqn:Hty; try discriminate Hk.
+    destruct o as [|kvs| |]; try discriminate Hk. cbn [item_type] in P2.
+    exact (with_item_dict_prep_inplace_refines ct h0 l a c d k sp s lc Gl Gc Ga Gd Gni Gfld Gflat P1 Hfa kvs tk tv Hty P2
+             ltac:(cbn [ty_depth] in Gdep; lia) ltac:(cbn [ty_depth] in Gdep; lia) Glc Go key v Gfz Gsh Hkey Hv).
+  Qed.
+
+  Theorem with_item_dict_prep_copy_guarded key v :
+    copy_guard ct s l a KDict = true -> prep_items ct s l a = true -> fail_at s = None ->
+    nonref key = true -> vscalar v = true ->
+    copy_refines_spec ct h0 s l (HWithItem a) (mkh [key; v] false true VMissing false None None [] None)
+                      (SWithItem a) (mkah [abs0 key; abs0 v] false true AMissing false None None [] None).
+  Proof.
+    intros H Hp Hfa Hkey Hv. cpfacts KDict H. destruct (prep_items_facts sp Hsp Hp) as [P1 P2].
+    destruct (a_ty sp) as [| | | | | | | |tk tv| |] eqn:Hty; try discriminate Hk.
+    destruct o as [|kvs| |]; try discriminate Hk. cbn [item_type] in P2.
+    exact (with_item_dict_prep_copy_refines ct h0 l a c d k sp s lc Gl Gc Ga Gd Gni Gfld Gflat P1 Hfa kvs tk tv Hty P2
+             ltac:(cbn [ty_depth] in Gdep; lia) ltac:(cbn [ty_depth] in Gdep; lia) Glc Go key v Gdnc Gpc Ginit Ga0 Hkey Hv).
+  Qed.
+
+  Theorem with_item_set_prep_guarded v :
+    elem_guard ct s l a KSet = true -> prep_items ct s l a = true -> fail_at s = None ->
+    vscalar v = true -> set_prep_ok ct s l a v = true ->
+    refines_spec ct h0 s l (HWithItem a) (mkh [v] true true VMissing false None None [] None)
+                 (SWithItem a) (mkah [abs0 v] true true AMissing false None None [] None).
+  Proof.
+    intros H Hp Hfa Hv Hok. ipfacts KSet H. destruct (prep_items_facts sp Hsp Hp) as [P1 P2].
+    destruct (a_ty sp) as [| | | | | | |ity'| |ity|] eqn:Hty; try discriminate Hk.
+    destruct o as [| |xs|]; try discriminate Hk. cbn [item_type] in P2.
+    exact (with_item_set_prep_inplace_refines ct h0 l a c d k sp s lc Gl Gc Ga Gd Gni Gfld Gflat P1 Hfa xs ity Hty P2
+             ltac:(cbn [ty_depth] in Gdep; lia) Glc Go v Gfz Gsh Hv
+             (set_prep_ok_facts sp xs v Hsp (list_of_set s l a xs Hob) Hok)).
+  Qed.
+
+  Theorem with_item_set_prep_copy_guarded v :
+    copy_guard ct s l a KSet = true -> prep_items ct s l a = true -> fail_at s = None ->
+    vscalar v = true -> set_prep_ok ct s l a v = true ->
+    copy_refines_spec ct h0 s l (HWithItem a) (mkh [v] false true VMissing false None None [] None)
+                      (SWithItem a) (mkah [abs0 v] false true AMissing false None None [] None).
+  Proof.
+    intros H Hp Hfa Hv Hok. cpfacts KSet H. destruct (prep_items_facts sp Hsp Hp) as [P1 P2].
+    destruct (a_ty sp) as [| | | | | | |ity'| |ity|] eqn:Hty; try discriminate Hk.
+    destruct o as [| |xs|]; try discriminate Hk. cbn [item_type] in P2.
+    exact (with_item_set_prep_copy_refines ct h0 l a c d k sp s lc Gl Gc Ga Gd Gni Gfld Gflat P1 Hfa xs ity Hty P2
+             ltac:(cbn [ty_depth] in Gdep; lia) Glc Go v Gdnc Gpc Ginit Ga0 Hv
+             (set_prep_ok_facts sp xs v Hsp (list_of_set s l a xs Hob) Hok)).
+  Qed.
+End GuardedPrep.
+
+(* ------------------------------------------------------------------ *)
 (** * A concrete class and receiver: xs : List[int], m : Dict[str, int], t : Set[int] *)
 
 Definition ex_list_sp : attr_spec := mkattr 1 (TList TInt) VMissing None 0 true false None None [].
@@ -838,3 +963,9 @@ Definition ex_ct_frozen : ctable := [ex_cls_frozen].
 
 (* an instance of the same class whose three collection attributes hold nothing *)
 Definition ex_state_missing : state := mkst [OInst 0 []] 0 None.
+
+(* the same class with item preparers: xs and t add 10 to a new element, m takes it as it is *)
+Definition ex_list_sp_p : attr_spec := mkattr 1 (TList TInt) VMissing None 0 true false None (Some (FAddInt 10)) [].
+Definition ex_set_sp_p : attr_spec := mkattr 3 (TSet TInt) VMissing None 0 true false None (Some (FAddInt 10)) [].
+Definition ex_cls_prep : cls := mkcls 0 [ex_list_sp_p; ex_dict_sp; ex_set_sp_p] false false None [0] 0 [] None None.
+Definition ex_ct_prep : ctable := [ex_cls_prep].
